@@ -307,3 +307,32 @@ def intersection_witness(a: NFA, b: NFA) -> Tuple[Optional[str], Dict[str, int]]
                 seen[nxt] = (cur, rep)
                 q.append(nxt)
     return None, {"states": len(seen), "transitions": trans}
+
+
+def group_nfa(pattern: str, flags: int, group: str) -> NFA:
+    """NFA of the language of the named group's own sub-pattern (what the group can capture, context-free)."""
+    tree = sre_parse.parse(pattern, flags)
+    gid = tree.state.groupdict.get(group)
+    if gid is None:
+        raise UnsupportedRegex(f"no group named {group}")
+    eff = flags | tree.state.flags
+    found = []
+
+    def walk(seq):
+        for op, av in seq:
+            if op is sre_c.SUBPATTERN:
+                if av[0] == gid:
+                    found.append(av[3])
+                walk(av[3])
+            elif op is sre_c.BRANCH:
+                for b in av[1]:
+                    walk(b)
+            elif op in (sre_c.MAX_REPEAT, sre_c.MIN_REPEAT):
+                walk(av[2])
+    walk(tree)
+    if len(found) != 1:
+        raise UnsupportedRegex(f"group {group} found {len(found)} times")
+    nfa = NFA()
+    end = _build(nfa, found[0], nfa.start, eff)
+    nfa.accept = {end}
+    return nfa
